@@ -121,31 +121,40 @@ def sumNat (l : List Nat) : Nat := l.foldl (· + ·) 0
 def flatteningOf (cs : List Nat) (avg : α) : α :=
   cs.foldl (fun acc c => acc + smax (ofInt (Int.ofNat c) - avg) (ofInt 0)) (ofInt 0)
 
+/-- The arithmetic of `_flatten_contributions` once the contributions are sorted and the numbers of
+outliers `oc` and of top entities `tc` are drawn. -/
+def flattenCore (E : Env α) (ap : AnonParams α) (bucketSeed : UInt64) (sorted : List (UInt64 × Nat))
+    (unaccounted : Nat) (oc tc : Nat) : PidCount α :=
+  let cs := sorted.map (·.2)
+  let topSum := sumNat ((cs.drop oc).take tc)
+  let topAvg : α := ofInt (Int.ofNat topSum) / ofInt (Int.ofNat tc)
+  let flattening := flatteningOf (cs.take oc) topAvg
+  let realSum := sumNat cs
+  let flatUnacc := smax (ofInt (Int.ofNat unaccounted) - flattening) (ofInt 0)
+  let flatSum : α := ofInt (Int.ofNat realSum) - flattening
+  let flatAvg := flatSum / ofInt (Int.ofNat sorted.length)
+  let noiseScale := smax flatAvg (ofInt 1 / ofInt 2 * topAvg)
+  let noiseSd := ap.noiseSd * noiseScale
+  let pidSeed := xorAll (sorted.map (·.1))
+  let noise := generateNoise E ap.salt "noise" noiseSd [bucketSeed, pidSeed]
+  ⟨flatSum + flatUnacc, flattening, noiseSd, noise⟩
+
+/-- the seeded draw of `oc` and `tc` from the compacted intervals, then `flattenCore` -/
+def flattenSorted (E : Env α) (ap : AnonParams α) (bucketSeed : UInt64) (oi ti : FlatInterval)
+    (sorted : List (UInt64 × Nat)) (unaccounted : Nat) : PidCount α :=
+  let flatSeed0 := xorAll ((sorted.take (oi.upper + ti.upper).toNat).map (·.1))
+  let flatSeed := saltedSeed E ap.salt flatSeed0
+  let oc := (randomUniform oi (mixSeed E "outlier" flatSeed)).toNat
+  let tc := (randomUniform ti (mixSeed E "top" flatSeed)).toNat
+  flattenCore E ap bucketSeed sorted unaccounted oc tc
+
 /-- `_flatten_contributions` -/
 def flattenContributions (E : Env α) (ap : AnonParams α) (bucketSeed : UInt64) (pc : PidContributions) :
     Except String (Option (PidCount α)) :=
-  let total : Int := pc.counts.length
-  match compactIntervals ap.outlier ap.top total with
+  match compactIntervals ap.outlier ap.top (Int.ofNat pc.counts.length) with
   | .error e => .error e
   | .ok none => .ok none
-  | .ok (some (oi, ti)) =>
-    let sorted := sortDesc pc.counts
-    let flatSeed0 := xorAll ((sorted.take (oi.upper + ti.upper).toNat).map (·.1))
-    let flatSeed := saltedSeed E ap.salt flatSeed0
-    let oc := (randomUniform oi (mixSeed E "outlier" flatSeed)).toNat
-    let tc := (randomUniform ti (mixSeed E "top" flatSeed)).toNat
-    let topSum := sumNat (((sorted.drop oc).take tc).map (·.2))
-    let topAvg : α := ofInt (topSum : Int) / ofInt (tc : Int)
-    let flattening := flatteningOf ((sorted.take oc).map (·.2)) topAvg
-    let realSum := sumNat (pc.counts.map (·.2))
-    let flatUnacc := smax (ofInt (pc.unaccounted : Int) - flattening) (ofInt 0)
-    let flatSum : α := ofInt (realSum : Int) - flattening
-    let flatAvg := flatSum / ofInt total
-    let noiseScale := smax flatAvg (ofInt 1 / ofInt 2 * topAvg)
-    let noiseSd := ap.noiseSd * noiseScale
-    let pidSeed := xorAll (pc.counts.map (·.1))
-    let noise := generateNoise E ap.salt "noise" noiseSd [bucketSeed, pidSeed]
-    .ok (some ⟨flatSum + flatUnacc, flattening, noiseSd, noise⟩)
+  | .ok (some (oi, ti)) => .ok (some (flattenSorted E ap bucketSeed oi ti (sortDesc pc.counts) pc.unaccounted))
 
 /-- Python's `max(list, key=...)` with a lexicographic pair key: the first maximal element. -/
 def maxByPair (key : PidCount α → α × α) : PidCount α → List (PidCount α) → PidCount α
